@@ -35,7 +35,7 @@ def run(ctx):
             ctx.design("Session/FileStore.tla", "FileStore_3saves.cfg", workers=8, timeout=1700, heap="12g", note="three saves in a row")
             ctx.design("Session/FileStore.tla", "FileStore_2files.cfg", workers=8, timeout=1700, heap="12g", note="two files, gc")
         ctx.design("Session/FileStore.tla", "FileStore_mutHdr.cfg", workers=4, timeout=300, expect_violation="NoMix",
-                   count=False, note="self-test: header written in two writes must violate NoMix")
+                   count=False, extra=["-noGenerateSpecTE"], note="self-test: header written in two writes must violate NoMix")
     td = threading.Thread(target=leg_d)
     td.start()
 
